@@ -135,9 +135,9 @@ let () =
               let u = universe s in let p = problem s in
               Printf.sprintf "%s | %s | %s" (b (o_solvable u p)) (polist (o_greedy u p)) (polist (o_explicit_first u p))
             | "soft" ->
-              (* U P -> none | some x1 x2 ... (soft solvables that must be accepted) *)
-              let u = universe s in let p = problem s in
-              (match o_soft_expect u p with
+              (* U P observed-solution -> none | some x1 x2 ... (soft solvables that must be accepted) *)
+              let u = universe s in let p = problem s in let obs = nlist s in
+              (match o_soft_expect u p obs with
                | None -> "none"
                | Some l -> "some " ^ plist (List.map fst l))
             | "hist" ->
